@@ -33,9 +33,10 @@ def main(argv=None):
         chk.guard(signature_rule, chk)
         chk.guard(pins_rule, chk)
         chk.guard(anchors_rule, chk)
-        from .rules.common import display_pure_rule, duck_rule
+        from .rules.common import display_pure_rule, duck_rule, init_rule
         chk.guard(display_pure_rule, chk)
         chk.guard(duck_rule, chk)
+        chk.guard(init_rule, chk)
         from .ownership import memo_rule
         from .rules.common import anchored_files
         chk.guard(memo_rule, chk, anchored_files().get(prop, []))
